@@ -178,7 +178,8 @@ SortFields(S) == IF S = {} THEN <<>>
                  ELSE LET m == CHOOSE c \in S : \A d \in S : d = c \/ PathLess(c.path, d.path) IN <<m>> \o SortFields(S \ {m})
 Fields(T) == SortFields(Dominant(T))
 
-Fold(s) == CASE s = "a" -> "A" [] s = "b" -> "B" [] s = "c" -> "C" [] s = "x" -> "X" [] s = "z" -> "Z" [] OTHER -> s
+Fold(s) == CASE s = "f00" -> "F00" [] s = "f06" -> "F06" [] s = "f07" -> "F07" [] s = "f16" -> "F16" [] s = "f63" -> "F63" [] s = "f99" -> "F99"
+             [] s = "a" -> "A" [] s = "b" -> "B" [] s = "c" -> "C" [] s = "x" -> "X" [] s = "z" -> "Z" [] OTHER -> s
 \* index of the field a key selects, 0 if none
 Select(fs, key, o) ==
   LET exact == {i \in 1..Len(fs) : fs[i].jn = key}
